@@ -1,10 +1,15 @@
 use crate::engine::Property;
 
-pub mod c01;
-
-pub fn all() -> Vec<Property> {
-    vec![c01::property()]
+macro_rules! props {
+    ($($m:ident),* $(,)?) => {
+        $(pub mod $m;)*
+        pub fn all() -> Vec<Property> {
+            vec![$($m::property()),*]
+        }
+    };
 }
+
+props!(c01, c02, c03, c04);
 
 pub fn by_id(id: &str) -> Option<Property> {
     all().into_iter().find(|p| p.id == id)
